@@ -139,6 +139,9 @@ func Simulate(sched simrt.Schedule, fsPlan *simrt.FSPlan, maxTicks uint64, f fun
 			if o, ok := r.Aborted.(simrt.Overflow); ok {
 				frame = innermostCogFrame(o.Func + "(")
 			}
+			if h, ok := r.Aborted.(simrt.Hang); ok {
+				frame = innermostCogFrame(h.Func + "(")
+			}
 			ex.Panic = &PanicInfo{Class: classify(r.Aborted), Value: r.Aborted.Error(), Frame: frame}
 		}
 	}()
